@@ -133,7 +133,10 @@ def second_instance_binary(ctx, corr_broken):
         return
     d = os.path.join(ctx.work, "second_dp")
     os.makedirs(d, exist_ok=True)
-    args = [binp, "--data-path", d, "--tcp-address=127.0.0.1:0", "--http-address=127.0.0.1:0"]
+    # a loopback address private to this run (not 127.0.0.1: a client of another check that still reconnects to a recycled
+    # 127.0.0.1 port must not reach this daemon; see vfMetaLoop in harness/meta/meta_test.go)
+    lo = "127.%d.%d.%d:0" % (1 + (os.getpid() >> 16) % 250, (os.getpid() >> 8) & 255, 1 + os.getpid() % 254)
+    args = [binp, "--data-path", d, "--tcp-address=" + lo, "--http-address=" + lo]
     logs = [open(os.path.join(ctx.work, "nsqd%d.log" % i), "w+") for i in (1, 2, 3)]
 
     def wait_dat(p):
@@ -191,6 +194,30 @@ def second_instance_binary(ctx, corr_broken):
     ctx.corr["second_instance_binary"] = res
 
 
+def steered_tests(path):
+    """`#!test <GoTestName>` lines of a corpus script: steered in-process schedules that ARE the replay of a known finding"""
+    try:
+        return [l.split()[1] for l in open(path).read().splitlines() if l.startswith("#!test ") and len(l.split()) > 1]
+    except OSError:
+        return []
+
+
+def steered_cut(ctx, binp, name, script):
+    rc, out = ctx.run_cmd([binp, "-test.run", "^%s$" % name, "-test.count=1", "-test.timeout=120s"], timeout=150)
+    obs = [l for l in out.splitlines() if l.startswith("OBSERVATION")]
+    if not obs:
+        ctx.broken_ties.append("steered replay %s did not run (rc=%s): %s" % (name, rc, out[-200:].replace("\n", " | ")))
+        return None
+    ctx.corr["steered_global_cut"] = obs[0]
+    ctx.evaluations += 1
+    ctx.count_case("sched:" + name, nontrivial=True)
+    if "restart_from_that_file=loaded-never-passed-state" in obs[0]:
+        ctx.violation("restart-state-never-passed-through",
+                      "steered schedule (Props.C06.cutSchedule on the real code): a SIGKILL while this document was nsqd.dat "
+                      "leaves it for the restart: " + obs[0][:400], script + "# observed: " + obs[0] + "\n")
+    return obs[0]
+
+
 def run(ctx):
     ctx.trusted += [
         "OS semantics (DESIGN §4.5): a completed write(2) is visible after SIGKILL, rename(2) is atomic w.r.t. "
@@ -212,6 +239,12 @@ def run(ctx):
         "disk faults (ENOSPC, EIO) are outside the quantifier: doPause* ignore PersistMetadata's error",
         "Quiet (idle) additionally requires that no topic deletion is half-way (Props.C06.Quiet)",
         "the per-topic read of GetMetadata (IsPaused, then the channel map) is one model step",
+        "pause_ack_flag / pause_ack_chan_flag: hquiet - no other pause/unpause (deletion, re-creation) of the same topic / channel "
+        "raced with the handler; the conclusion covers the entries present in the document only",
+        "load_marshal_snapshot: WF m (unique names of the live maps; not proved as an invariant of Reach) and Codec.RoundTrip",
+        "creation_persisted_when_idle / deletion_excluded_when_idle: Quiet s and Reach on the tree with F6; nothing is proved about "
+        "'the next completed persist' after a non-global-cut document (finding restart-state-never-passed-through, replayed by the "
+        "steered leg TestVerifMetaCutSteered)",
         "start_load_exact_partial: every document the daemon wrote has unique valid non-ephemeral names (names enter the "
         "maps only through IsValid...Name-guarded call sites; the unguarded source is the channel list a nsqlookupd "
         "returns to GetTopic) - start_load_exact_false shows an invalid name does not survive a restart",
@@ -250,6 +283,10 @@ def run(ctx):
     if not binp:
         ctx.broken_ties.append("harness meta/meta_test.go does not compile against the current tree")
         corr_broken.append("harness build")
+    elif ctx.replay_in and steered_tests(ctx.replay_in):
+        # a known-finding replay that names its steered in-process test (`#!test <name>`): run that schedule on the real code
+        for name in steered_tests(ctx.replay_in):
+            print(steered_cut(ctx, binp, name, open(ctx.replay_in).read()) or "%s: no OBSERVATION line" % name)
     elif ctx.replay_in:
         res = run_harness(ctx, binp, "replay", {"VERIF_SCRIPT": os.path.abspath(ctx.replay_in)}, 300)
         for x in zip(res["ops"], res["impl"], res["model"]):
@@ -280,7 +317,13 @@ def run(ctx):
         for x in [y for y in zip(res["ops"], res["impl"]) if y[1].startswith("ok mem=x")][:3]:
             ctx.add_sample({"op": x[0][:300], "impl": x[1][:300]})
         second_instance_binary(ctx, corr_broken)
-        # audit A4: documents that are a per-topic cut but not a global cut, on the real code; a restart from such a file
+        # audit A4 / claim audit 2 item 33: the known finding's replay file names the STEERED schedule (Props.C06.cutSchedule
+        # forced on the real code by parking the persist on cutb's topic lock); replayed on every run
+        for kf in sorted(glob.glob(os.path.join(ROOT, "corpus", "C06", "known", "*.ops"))):
+            for name in steered_tests(kf):
+                steered_cut(ctx, binp, name, open(kf).read())
+        # audit A4: documents that are a per-topic cut but not a global cut, on the real code, UNSTEERED (free-running creations;
+        # meets the window in a few of several hundred documents, or not at all); a restart from such a file
         # loads a state the daemon never passed through (Props.C06.cut_full_false) - open known finding
         rc, out = ctx.run_cmd([binp, "-test.run", "^TestVerifMetaCutObservation$", "-test.count=1", "-test.timeout=120s"],
                               timeout=150, env={"VERIF_CUT_PAIRS": ctx.budget(200, 1500), "VERIF_CUT_MS": ctx.budget(1000, 8000)})
